@@ -345,6 +345,24 @@ def run(ctx):
                     apply_all(o[1], e, grid_envs, f'bigrange:{fn}|{lo}|{hi}|{ex}', extra_feats=('shape:large-range',),
                               remake=parse_remake('expression'))
 
+    # B5. string literals with every kind of escape, in the folds that read literal values
+    odd = ('a', 'it\\\'s', 'C:\\dev', '\\d+', 'a\\/b', '\\x41', 'q\\"r', 'tab\\there', 'a\\\\b', '50\\% done', '')
+    for s1 in odd:
+        for s2 in ('its', s1):
+            L1, L2 = ('lit', 'str', '"' + s1 + '"'), ('lit', 'str', '"' + s2 + '"')
+            for e in (('bin', '=', L1, L2), ('bin', '!=', L1, L2), ('bin', '=', ('call', 'str', (L1,)), A.fld('s')),
+                      ('call', 'bool', (L1,)), ('bin', 'in', L1, ('set', (L2, A.fld('s'))))):
+                cellno += 1
+                if not ctx.mine(cellno):
+                    continue
+                o = hplapi.outcome(PE.parse, A.render_expr(e))
+                if o[0] != 'ok':
+                    ctx.skip('escape-grid-rejected:' + type(o[1]).__name__)
+                    continue
+                ctx.count('escaped_string_folds')
+                apply_all(o[1], e, grid_envs, f'esc:{len(s1)}|{s1 == s2}|{e[0]}{e[1]}', extra_feats=('shape:escaped-string',),
+                          remake=parse_remake('expression'))
+
     # C. random typed expressions and predicates
     for n in range(ctx.share(B['random'])):
         t = gen.pick(rng, (gen.BOOL, gen.BOOL, gen.NUM, gen.STR))
